@@ -282,6 +282,100 @@ theorem map_removed_child_leaves_parent_unchanged (D : SlabID → DigestFn 4) (w
   exact ⟨⟨pm', hpm', hg1, hg2, fun q hq hpe => hdet.1.2 p (holds_map_of_mem hpm' (k := q.1) hq hpe)⟩, hdet, H',
     detached_root_notification_is_noop D w' _ x H' hdet.1⟩
 
+/-! ### 5. A detached root stays a detached root
+
+"The detached container … can be mutated, disposed of or attached to another parent": until it IS
+attached to a parent (stored as a value: `v = .child x _`), no operation through a current handle
+— to another container OR to `x` itself — makes any container refer to `x`, and `x` stays live.  So
+the no-op statement `detached_root_notification_is_noop` applies to `x` after any number of such
+operations (each of which keeps `WorldOk'`). -/
+
+/-- `Array.Insert` -/
+theorem detachedRoot_arrInsert (D : SlabID → DigestFn 4) (w : World) (p : SlabID) (i : Nat) (v : WVal) (cx : Ctx)
+    (w' : World) (cx' : Ctx) (x : SlabID) (H : WorldOk' D w cx.ctr) (hh : HandleOk w p)
+    (hv : WValOk w p (maxInlineArr w.T) v) (h : w.arrInsert p i v cx = .ok (w', cx'))
+    (hx : DetachedRoot w x) (hvx : ∀ wr, v ≠ .child x wr) : DetachedRoot w' x := by
+  obtain ⟨_, _, hins, _, hS⟩ := C10W.worldOk'_arrInsert D w p i v cx w' cx' H hh hv h
+  obtain ⟨a, a', e, hpa, hpa', hi, hl, h1, h2⟩ := hins
+  refine hx.of_frame hS (by rw [hpa']; rfl) (fun c' hc' hm => ?_)
+  rw [hpa'] at hc'; cases hc'
+  obtain ⟨e', he', hpe⟩ := mem_pays_iff.mp hm
+  have he'' : e' ∈ a.toList.insertIdx i e := by rw [← hl]; exact he'
+  rcases (List.mem_insertIdx hi).mp he'' with rfl | hmem
+  · exact hv.new_elem_not_ref hvx h1 (fun y wr hy => (h2 y wr hy).1) hpe
+  · exact hx.2 p (holds_arr_of_mem hpa hmem hpe)
+
+/-- `Array.Set` -/
+theorem detachedRoot_arrSet (D : SlabID → DigestFn 4) (w : World) (p : SlabID) (i : Nat) (v : WVal) (cx : Ctx)
+    (old : Elem) (w' : World) (cx' : Ctx) (x : SlabID) (H : WorldOk' D w cx.ctr) (hh : HandleOk w p)
+    (hv : WValOk w p (maxInlineArr w.T) v) (h : w.arrSet p i v cx = .ok (old, w', cx'))
+    (hx : DetachedRoot w x) (hvx : ∀ wr, v ≠ .child x wr) : DetachedRoot w' x := by
+  obtain ⟨_, _, hset, _, hS⟩ := C10W.worldOk'_arrSet D w p i v cx old w' cx' H hh hv h
+  obtain ⟨a, a', old0, e, hpa, hpa', _, hl, _, _, h1, h2⟩ := hset
+  refine hx.of_frame hS (by rw [hpa']; rfl) (fun c' hc' hm => ?_)
+  rw [hpa'] at hc'; cases hc'
+  obtain ⟨e', he', hpe⟩ := mem_pays_iff.mp hm
+  have he'' : e' ∈ a.toList.set i e := by rw [← hl]; exact he'
+  rcases List.mem_or_eq_of_mem_set he'' with hmem | rfl
+  · exact hx.2 p (holds_arr_of_mem hpa hmem hpe)
+  · exact hv.new_elem_not_ref hvx h1 (fun y wr hy => (h2 y wr hy).1) hpe
+
+/-- `Array.Remove` -/
+theorem detachedRoot_arrRemove (D : SlabID → DigestFn 4) (w : World) (p : SlabID) (i : Nat) (cx : Ctx)
+    (old : Elem) (w' : World) (cx' : Ctx) (x : SlabID) (H : WorldOk' D w cx.ctr) (hh : HandleOk w p)
+    (h : w.arrRemove p i cx = .ok (old, w', cx')) (hx : DetachedRoot w x) : DetachedRoot w' x := by
+  obtain ⟨_, _, hrem, _, hS⟩ := C10W.worldOk'_arrRemove D w p i cx old w' cx' H hh h
+  obtain ⟨a, a', old0, hpa, hpa', _, hl, _, _⟩ := hrem
+  refine hx.of_frame hS (by rw [hpa']; rfl) (fun c' hc' hm => ?_)
+  rw [hpa'] at hc'; cases hc'
+  obtain ⟨e', he', hpe⟩ := mem_pays_iff.mp hm
+  have he'' : e' ∈ a.toList.eraseIdx i := by rw [← hl]; exact he'
+  exact hx.2 p (holds_arr_of_mem hpa (List.mem_of_mem_eraseIdx he'') hpe)
+
+/-- `OrderedMap.Set` -/
+theorem detachedRoot_mapSet (D : SlabID → DigestFn 4) (w : World) (p : SlabID) (k : MKey) (v : WVal) (cx : Ctx)
+    (old : Option Elem) (w' : World) (cx' : Ctx) (x : SlabID) (H : WorldOk' D w cx.ctr) (hh : HandleOk w p)
+    (hk : KeyOk w.T 4 (D p) k) (hv : WValOk w p (maxInlineMapValue w.T k.size) v)
+    (h : w.mapSet p k v cx = .ok (old, w', cx'))
+    (hx : DetachedRoot w x) (hvx : ∀ wr, v ≠ .child x wr) : DetachedRoot w' x := by
+  obtain ⟨_, _, hset, _, hS⟩ := C10W.worldOk'_mapSet D w p k v cx old w' cx' H hh hk hv h
+  obtain ⟨m, m', e, oldo, hpm, hpm', heff, _, _, h1, h2⟩ := hset
+  refine hx.of_frame hS (by rw [hpm']; rfl) (fun c' hc' hm => ?_)
+  rw [hpm'] at hc'; cases hc'
+  obtain ⟨e', he', hpe⟩ := mem_pays_iff.mp hm
+  obtain ⟨q, hq, rfl⟩ := List.mem_map.mp he'
+  rcases heff.mem q hq with rfl | hmem
+  · exact hv.new_elem_not_ref hvx h1 (fun y wr hy => (h2 y wr hy).1) hpe
+  · exact hx.2 p (holds_map_of_mem hpm (k := q.1) hmem hpe)
+
+/-- `OrderedMap.Remove` -/
+theorem detachedRoot_mapRemove (D : SlabID → DigestFn 4) (w : World) (p : SlabID) (k : MKey) (cx : Ctx)
+    (rk : MKey) (rv : Elem) (w' : World) (cx' : Ctx) (x : SlabID) (H : WorldOk' D w cx.ctr) (hh : HandleOk w p)
+    (hk : KeyOk w.T 4 (D p) k) (h : w.mapRemove p k cx = .ok (rk, rv, w', cx'))
+    (hx : DetachedRoot w x) : DetachedRoot w' x := by
+  obtain ⟨_, _, hrem, _, hS⟩ := C10W.worldOk'_mapRemove D w p k cx rk rv w' cx' H hh hk h
+  obtain ⟨m, m', rv0, hpm, hpm', _, heff, _, _⟩ := hrem
+  refine hx.of_frame hS (by rw [hpm']; rfl) (fun c' hc' hm => ?_)
+  rw [hpm'] at hc'; cases hc'
+  obtain ⟨e', he', hpe⟩ := mem_pays_iff.mp hm
+  obtain ⟨q, hq, rfl⟩ := List.mem_map.mp he'
+  exact hx.2 p (holds_map_of_mem hpm (k := q.1) (heff.mem q hq) hpe)
+
+/-- `Array.Get` / `OrderedMap.Get` (and the mutable iterators): no container changes -/
+theorem detachedRoot_of_conts_eq (w w' : World) (x : SlabID) (hc : ∀ z, w'.cont? z = w.cont? z)
+    (hx : DetachedRoot w x) : DetachedRoot w' x := by
+  refine ⟨by rw [hc]; exact hx.1, fun q ⟨c, hq, hm⟩ => hx.2 q ⟨c, by rw [← hc]; exact hq, hm⟩⟩
+
+theorem detachedRoot_arrGet (D : SlabID → DigestFn 4) (w : World) (p : SlabID) (i : Nat) (el : Elem) (w' : World)
+    (ctr : Nat) (x : SlabID) (H : WorldOk' D w ctr) (hh : HandleOk w p) (h : w.arrGet p i = .ok (el, w'))
+    (hx : DetachedRoot w x) : DetachedRoot w' x :=
+  detachedRoot_of_conts_eq w w' x (C10W.worldOk'_arrGet D w p i el w' ctr H hh h).2.1 hx
+
+theorem detachedRoot_mapGet (D : SlabID → DigestFn 4) (w : World) (p : SlabID) (k : MKey) (el : Elem) (w' : World)
+    (ctr : Nat) (x : SlabID) (H : WorldOk' D w ctr) (hh : HandleOk w p) (hk : KeyOk w.T 4 (D p) k)
+    (h : w.mapGet p k = .ok (el, w')) (hx : DetachedRoot w x) : DetachedRoot w' x :=
+  detachedRoot_of_conts_eq w w' x (C10W.worldOk'_mapGet D w p k el w' ctr H hh hk h).2.1 hx
+
 /-! ### Non-vacuity, run A (`AtreeProofs/World/C11Scenario.lean`, T = 256)
 
 Root array `R`; array `X` INLINED in slot 0 of `R` (one value); `Array.Set R 0 Y` overwrites `X` by
